@@ -179,7 +179,7 @@ func (m *Method) CallWithKeywords(self Object, args Tuple, kwargs StringDict) (O
 //
 // This needs to convert the methods into internally callable python
 // methods
-func newBoundMethod(name string, fn interface{}) (Object, error) {
+func newBoundMethod(name string, self Object, fn interface{}) (Object, error) {
 	m := &Method{
 		Name: name,
 	}
@@ -196,6 +196,16 @@ func newBoundMethod(name string, fn interface{}) (Object, error) {
 	// M__str__() (Object, error)
 	case func() (Object, error):
 		m.method = func(_ Object) (Object, error) {
+			return f()
+		}
+	// M__index__() (Int, error)
+	case func() (Int, error):
+		m.method = func(_ Object) (Object, error) {
+			// The interface can only return a machine word: an
+			// int which doesn't fit one is its own index
+			if b, ok := self.(*BigInt); ok {
+				return b.MaybeInt(), nil
+			}
 			return f()
 		}
 	// M__add__(other Object) (Object, error)
